@@ -48,6 +48,8 @@ END = "proof { }"
 
 
 def build(u):
+    # the feature-gated operators / functions (pgvector distances, ANY / SOME / ALL over arrays) are part of the tables
+    u.features = set(u.features) | {"postgres-vector", "postgres-array"}
     u.emit("use vstd::prelude::*;\nverus! {\n")
     u.prelude_file("vlib/prelude/vfmt.rs")
     u.emit("#[verifier::external_body]\npub struct DynIden { _opaque: u8 }\nimpl DynIden {\n    // Iden::unquoted: the name as given (its own definition of it)\n    #[verifier::external_body]\n"
